@@ -126,6 +126,13 @@ def run(ctx):
                     script.append(('close',))
             pre = ([('compress', 64)] if comp else []) + [('success',)]
             cfg = {'version': v, 'script': pre + script}
+            if rng.random() < 0.4:      # the server's bytes arrive in small TCP segments
+                if rng.random() < 0.5:
+                    cfg['segment'] = rng.choice([1, 2, 3, 5, 7, 16])
+                else:
+                    import random
+                    cfg['stream_rng'] = random.Random(rng.getrandbits(32))
+                ctx.count('segmented')
             if 'uuid_binary' in I:
                 cfg['uuid_binary'] = I['uuid_binary']
                 # login-state ids of snapshots (the 1.13 snapshots 385..390 shift them): pyCraft's own tables
